@@ -61,7 +61,7 @@ func registerList(m *match.Match, l *SubList, c match.Client) (paths [][]string,
 	var removes []func()
 	for _, g := range l.Subs {
 		if g == nil {
-			continue
+			g = &GPath{}
 		}
 		q := refQuery(l.Prefix, g)
 		paths = append(paths, q)
